@@ -41,6 +41,7 @@ type fileConfig struct {
 	opts         *CmdEnv
 	callbacks    []ConfigReloadCallback
 	mux          sync.RWMutex
+	reloadMux    sync.Mutex // serializes Reload
 	lastLoadTime time.Time
 }
 
@@ -654,9 +655,27 @@ func NewConfig(opts *CmdEnv, currentVersion ...string) (Config, error) {
 // new data and calls the reload callbacks.
 func (f *fileConfig) Reload(opts ...ReloadedConfigDataOption) error {
 	simhook.Yield("config.Reload.entry")
+
+	// Reloads can be triggered concurrently (timer, pubsub, OpAMP). Reading the
+	// files, comparing with the running config and replacing it must happen as
+	// one step, otherwise two reloads can both apply the same change, or an
+	// older read can overwrite a newer one.
+	f.reloadMux.Lock()
+	callbacks, mainHash, rulesHash, err := f.reloadLocked(opts...)
+	f.reloadMux.Unlock()
+
+	for _, cb := range callbacks {
+		cb(mainHash, rulesHash)
+	}
+	return err
+}
+
+// reloadLocked does the work of Reload; it returns the callbacks to call (none
+// if nothing was applied). f.reloadMux must be held.
+func (f *fileConfig) reloadLocked(opts ...ReloadedConfigDataOption) ([]ConfigReloadCallback, string, string, error) {
 	cData, rData, err := newConfigAndRules(f.opts)
 	if err != nil {
-		return err
+		return nil, "", "", err
 	}
 
 	newData := &ReloadedConfigData{
@@ -673,13 +692,16 @@ func (f *fileConfig) Reload(opts ...ReloadedConfigDataOption) error {
 	// As in NewConfig: a nil cfg is a fatal error and nothing is applied; a
 	// non-nil cfg with an error carries warnings only and is applied.
 	if cfg == nil {
-		return err
+		return nil, "", "", err
 	}
 	warnings := err
 
 	// if nothing's changed, we're fine
-	if f.mainHash == cfg.mainHash && f.rulesHash == cfg.rulesHash {
-		return warnings
+	f.mux.RLock()
+	unchanged := f.mainHash == cfg.mainHash && f.rulesHash == cfg.rulesHash
+	f.mux.RUnlock()
+	if unchanged {
+		return nil, "", "", warnings
 	}
 
 	// otherwise, update our state and call the callbacks
@@ -689,12 +711,11 @@ func (f *fileConfig) Reload(opts ...ReloadedConfigDataOption) error {
 	f.mainHash = cfg.mainHash
 	f.rulesConfig = cfg.rulesConfig
 	f.rulesHash = cfg.rulesHash
-	f.mux.Unlock() // can't defer -- we don't want callbacks to deadlock
+	callbacks := make([]ConfigReloadCallback, len(f.callbacks))
+	copy(callbacks, f.callbacks)
+	f.mux.Unlock() // the callbacks are called without the lock so that they can't deadlock
 
-	for _, cb := range f.callbacks {
-		cb(cfg.mainHash, cfg.rulesHash)
-	}
-	return warnings
+	return callbacks, cfg.mainHash, cfg.rulesHash, warnings
 }
 
 // GetHashes returns the current hash values for the main and rules configs.
